@@ -31,6 +31,15 @@ Vocabulary (anything else raises `TranslateError` = broken tie):
                        tuple slices `x[a:]` / `x[:b]`, `x + y`, `(slice(None),) * k`, tuple displays of `slice(None)` / `...`,
                        `x[-1]` / `x[-2]`, `raise` (= no result), `if/elif/else` re-assigning existing names,
                        `new_mean = self.mean[idx]` (the point from which the tuple holds no `Ellipsis`)
+  constructors         `from_batch_mvn`: int assignments / conditional expressions / `if …: raise` over `task_dim`,
+                       `len(batch_mvn.batch_shape)`, `batch_mvn.mean.dim()`; `batch_mvn.mean.permute(*range(a, b), …, e)`;
+                       `Block*LinearOperator(batch_mvn.lazy_covariance_matrix, block_dim=e)`
+                       `from_independent_mvns`: `torch.stack([mvn.mean for mvn in mvns], d)`,
+                       `CatLinearOperator(*[mvn.lazy_covariance_matrix.unsqueeze(u) for mvn in mvns], dim=c, output_device=…)`,
+                       `Block*LinearOperator(covar_blocks_lazy, block_dim=b)`
+                       `from_repeated_mvn`: `cls.from_batch_mvn(mvn.expand(torch.Size([…]) + mvn.batch_shape), task_dim=k)`
+                       `to_data_independent_dist`: `full_covar[..., data_indices + task_indices.unsqueeze(d1), data_indices + task_indices.unsqueeze(d2)]`
+                       `rsample`: `base_samples.view(*sample_shape, *self.loc.shape)`
   results              `MultivariateNormal(mean=new_mean, covariance_matrix=new_cov)`,
                        `MultitaskMultivariateNormal(mean=new_mean, covariance_matrix=new_cov, interleaved=..., validate_args=False)`
 """
@@ -808,8 +817,8 @@ class Translator:
                 and isinstance(top.orelse[0].body[0], ast.Raise)):
             bad(top, "too-many-dimensions branch")
         block = top.orelse[0].orelse
-        if not block or ast.unparse(block[0]) != "batch_idx = idx[:-2]":
-            bad(block[0] if block else top, "expected `batch_idx = idx[:-2]`")
+        if not block or not (isinstance(block[0], ast.Assign) and ast.unparse(block[0].targets[0]) == "batch_idx"):
+            bad(block[0] if block else top, "expected the assignment of `batch_idx`")   # its value is translated below (ttuple)
         # ---- layout assignment
         lay = block[1]
         if not (isinstance(lay, ast.If) and ast.unparse(lay.test) == "self._interleaved"):
